@@ -1017,6 +1017,15 @@ impl Gen<'_> {
             }
         }
     }
+    fn rand_value(&mut self) -> i64 {
+        match self.rng.below(30) {
+            0 => i64::MIN,
+            1 => i64::MAX,
+            2 => 0,
+            3 => self.rng.next_u64() as i64,
+            _ => self.rng.below(1000) as i64 - 500,
+        }
+    }
     fn existing_key(&mut self) -> Option<i64> {
         if self.model.kv.is_empty() {
             return None;
@@ -1207,14 +1216,14 @@ impl Engine for C18 {
                     } else {
                         g.loc(valid_only)
                     };
-                    Op::Insert { key, value: g.rng.below(1000) as i64 - 500, hash, loc }
+                    Op::Insert { key, value: g.rand_value(), hash, loc }
                 }
                 "upsert" => {
                     let newest = g.model.newest.filter(|k| g.model.kv.contains_key(k));
                     let key = if chain && newest.is_some() && g.rng.chance(1, 2) { newest } else if g.rng.chance(3, 5) { g.existing_key() } else { None }
                         .unwrap_or_else(|| g.rand_key());
                     let hash = if conflict { g.existing_hash().unwrap_or_else(|| g.any_hash()) } else if faults { g.any_hash() } else { g.new_hash() };
-                    Op::Upsert { key, value: g.rng.below(1000) as i64, hash }
+                    Op::Upsert { key, value: g.rand_value(), hash }
                 }
                 "delete" => {
                     let newest = g.model.newest.filter(|k| g.model.kv.contains_key(k));
